@@ -122,7 +122,15 @@ class C04(Prop):
         elif container == 'matrix':
             r = self.pr.ln_normalise(np.matrix([xs], dtype=float), dV=dV)
         else:
-            r = self.pr.LnPDF(np.array(xs, dtype=float), dV=dV).normalise()._ln_pdf
+            if len(xs) % 2 == 0:
+                r = self.pr.LnPDF(np.array(xs, dtype=float), dV=dV).normalise()._ln_pdf
+            else:
+                # the object is built with another volume element and normalised with the one asked for: normalise(dV=...) uses and stores the new one
+                obj = self.pr.LnPDF(np.array(xs, dtype=float), dV=dV * 3.7)
+                new = obj.normalise(dV=dV)
+                r = new._ln_pdf
+                if float(new.dV) != float(dV) or float(obj.dV) != float(dV):
+                    return [float('nan')] * len(xs)
         return [float(v) for v in np.asarray(r, dtype=float).flatten()]
 
     def impl(self, case):
